@@ -47,8 +47,9 @@ impl CopyHandle {
 
         // Refuse to copy a file onto itself (the same inode reached
         // through another spelling, a symlink or a hard link):
-        // creating the destination would truncate the source.
-        if to.exists() && is_same_file(from, to)? {
+        // creating the destination would truncate the source. A
+        // failed probe of the destination is an error, not "absent".
+        if to.try_exists()? && is_same_file(from, to)? {
             return Err(XcpError::InvalidDestination("Source and destination are the same file.").into());
         }
 
